@@ -60,6 +60,9 @@ def pd_key(d):
         elif any(e.get("res") != g.get("res") or e.get("lastact") != g.get("lastact") for e, g in zip(d["expected"], d["got"])):
             # same paths, but a run holds other results than its routers prescribe (category of the last visit of each node)
             where = "saved-results"
+        elif d.get("expected_segs") != d.get("got_segs"):
+            # same paths and results, but the sprint's segments are not the transitions the definition prescribes
+            where = "segments"
     return f"PathAsPrescribed call={d['op']}({d['kind']}) first-difference={where} expected-status={d['expected_status']} got-status={d['got_status']}"
 
 
